@@ -475,6 +475,38 @@ fn cli_batch_vs_singles(env: &vsim::clisim::run::Env, tree: &vsim::clisim::types
     Ok(None)
 }
 
+/// `format-all DIR` (one process walks the tree) against one `-i` process per eligible file: what
+/// a file is formatted to must not depend on which other files the same process has handled
+/// before it (nor on the order the directory listing happens to have). `names` = the eligible
+/// files as the model lists them (world-relative keys).
+fn cli_walk_vs_singles(env: &vsim::clisim::run::Env, tree: &vsim::clisim::types::Tree, a: &Inv, names: &[String]) -> Result<Option<String>, String> {
+    let Shape::FormatAll { check: false, .. } = &a.shape else { return Ok(None) };
+    vsim::clisim::world::materialise(&env.root(), tree).map_err(|e| e.to_string())?;
+    let walk = vsim::clisim::run::run_inv(env, a).map_err(|e| e.to_string())?;
+    if walk.signal.is_some() {
+        return Ok(None);
+    }
+    let t_walk = vsim::clisim::world::snapshot_tree(&vsim::clisim::world::snapshot(&env.root()).map_err(|e| e.to_string())?);
+    vsim::clisim::world::materialise(&env.root(), tree).map_err(|e| e.to_string())?;
+    for n in names {
+        let mut one = a.clone();
+        one.cwd = ".".into();
+        one.style.pre_column = None;
+        one.style.pre_tab = None;
+        one.shape = Shape::Files { mode: Mode::Inplace, paths: vec![format!("{{ROOT}}/{}", n)] };
+        let o = vsim::clisim::run::run_inv(env, &one).map_err(|e| e.to_string())?;
+        if o.signal.is_some() {
+            return Ok(None);
+        }
+    }
+    let t_single = vsim::clisim::world::snapshot_tree(&vsim::clisim::world::snapshot(&env.root()).map_err(|e| e.to_string())?);
+    if t_walk != t_single {
+        let k = t_walk.iter().find(|(k, v)| t_single.get(*k) != Some(*v)).map(|(k, _)| k.clone()).or_else(|| t_single.keys().find(|k| !t_walk.contains_key(*k)).cloned()).unwrap_or_default();
+        return Ok(Some(format!("the tree after one format-all process over {} eligible files differs from the tree after one in-place process per file (first differing path {:?})", names.len(), k)));
+    }
+    Ok(None)
+}
+
 /// State a tool keeps outside the formatted files (under HOME: a cache, stamps, a history) must
 /// not change what a later invocation does: invocation 2 is run (i) after invocation 1 with the
 /// HOME that invocation 1 left, and (ii) on the same tree with a fresh HOME; exit status, stdout
@@ -569,11 +601,25 @@ fn cli_replay_differs(env: &vsim::clisim::run::Env, r: &CliWorldsReplay) -> Resu
     if r.mode == "leftover-freshness" {
         return cli_leftover_freshness(env, &r.tree, &r.world_a, &r.world_b);
     }
+    if r.mode == "walk-vs-singles" {
+        let mut oracle = vsim::oracle::Oracle::new();
+        let names = walk_names(&r.tree, &r.world_a, &mut oracle);
+        return cli_walk_vs_singles(env, &r.tree, &r.world_a, &names);
+    }
     if r.mode == "batch-vs-singles" {
         cli_batch_vs_singles(env, &r.tree, &r.world_a)
     } else {
         cli_worlds_differ(env, &r.tree, &r.world_a, &r.world_b)
     }
+}
+
+/// the eligible files of a format-all invocation, as the model lists them
+fn walk_names(tree: &vsim::clisim::types::Tree, a: &Inv, oracle: &mut vsim::oracle::Oracle) -> Vec<String> {
+    let pred = vsim::clisim::model::predict(tree, a, &Default::default(), oracle);
+    if pred.unmodelled.is_some() || pred.oracle_unavailable {
+        return Vec::new();
+    }
+    pred.inputs.iter().map(|i| i.named.clone()).collect()
 }
 
 fn cli_env(worker: usize) -> vsim::clisim::run::Env {
@@ -750,6 +796,29 @@ fn cli_worlds_lane(base: u64, n: u64, workers: usize) -> CliLane {
                 a.readdir = "sorted".into();
                 a.env.clear();
                 a.shim_seed = 1;
+                if matches!(a.shape, Shape::FormatAll { check: false, .. }) && i % 4 < 2 {
+                    // one walking process vs one process per eligible file (directory order permuted)
+                    a.readdir = "perm".into();
+                    a.shim_seed = seed >> 1;
+                    let names = walk_names(&case.tree, &a, &mut oracle);
+                    if names.len() >= 2 && names.len() <= 40 {
+                        match cli_walk_vs_singles(&env, &case.tree, &a, &names) {
+                            Ok(res) => {
+                                let mut o = out.lock().unwrap();
+                                o.batch_pairs += 1;
+                                if let Some(msg) = res {
+                                    if o.found.is_none() {
+                                        o.found = Some(CliWorldsReplay { engine: "cliworlds".into(), property: "C17".into(), tree: case.tree.clone(), world_a: a.clone(), world_b: a, mode: "walk-vs-singles".into(), message: msg });
+                                    }
+                                }
+                            }
+                            Err(e) => out.lock().unwrap().errors.push(format!("seed {}: {}", seed, e)),
+                        }
+                        continue;
+                    }
+                    a.readdir = "sorted".into();
+                    a.shim_seed = 1;
+                }
                 let mut b = inv.clone();
                 let mut frng = vsim::rng::Rng::stream(seed, "faults");
                 vsim::clisim::plan::add_plan(&mut frng, "benign", &case.tree, &mut b, &mut oracle, 40);
